@@ -13,7 +13,10 @@
 // there; no rule named twice in one message; rule ids 1-3 in every id space so
 // that a FAR, a QER and a URR with the same number coexist), and
 //
-// Oracle: every IE of an answered message produces exactly one netlink request
+// A Create for a rule the session already has is drawn now and then; the data
+// plane refuses it, the installed rule is untouched and must stay updatable.
+//
+// Oracle: every (other) IE of an answered message produces exactly one netlink request
 // of the matching kind (create / update / remove), for the session's own SEID
 // and the IE's rule id, and the kernel accepts it.
 package rulepath
@@ -36,8 +39,9 @@ type Case struct {
 }
 
 type Stats struct {
-	SameNumber bool // a rule was removed (or updated) while a rule of another kind with the same id existed
-	Ops        int
+	SameNumber    bool // a rule was removed (or updated) while a rule of another kind with the same id existed
+	RefusedCreate bool // a Create for a rule that exists (refused by the data plane)
+	Ops           int
 }
 
 var kinds = []string{"FAR", "QER", "URR", "BAR", "PDR"}
@@ -102,7 +106,8 @@ func Gen(t *rapid.T) Case {
 			}
 			verb := "create"
 			if have[kind][id] {
-				verb = rapid.SampledFrom([]string{"update", "update", "remove"}).Draw(t, "verb")
+				// now and then a Create for a rule that is already there: the data plane refuses it and the rule stays as it is
+				verb = rapid.SampledFrom([]string{"update", "update", "update", "remove", "remove", "create"}).Draw(t, "verb")
 			}
 			if m == 0 && verb != "create" {
 				continue
@@ -213,6 +218,10 @@ func Run(c Case, assert map[string]bool) (v *vcore.Violation, stt Stats) {
 			}
 			if !assert[op.Kind] {
 				continue
+			}
+			if op.Verb == "create" && have[op.Kind][op.ID] {
+				stt.RefusedCreate = true
+				continue // refused by the data plane (EEXIST); what matters is that the installed rule can still be updated
 			}
 			got := seen[rq{simkernel.RuleKey{Kind: op.Kind, SEID: up, ID: uint64(op.ID)}, op.Verb}]
 			if len(got) == 0 {
